@@ -597,6 +597,10 @@ def inj_single_target(rng, net, info, name, elem="direction", give=None):
     xy, z = _xyz_status(rng, net)
     if elem == "s-distance":
         z = "free"
+    if give and info.get("datum") in ("free", "mixed") and xy == "free" and z == "none" and rng.uniform() < 0.5:
+        # a *constrained* point of a free network that has to be removed: it must leave the datum with its unknowns
+        xy = "constrained"
+        info["notes"].append("removed point %s is a constrained point" % name)
     q = _new_point(rng, net, name, xy, z)
     q.give_xy = q.give_z = give
     cl = _stations(net, info["base"])[int(rng.integers(0, len(_stations(net, info["base"]))))]
